@@ -55,6 +55,12 @@ pub enum ObjSpec {
         partner_value: Fx,
         partner_vars: Vec<(String, Fx)>,
     },
+    /// two independent numbers of one kind whose variable lists collide under naive keying
+    /// (e.g. ["a,b","c"] and ["a","b","c"]); both get restarted in the same process
+    NumberPair {
+        a: Num,
+        b: Num,
+    },
     Cal(CalSpec),
     Union(UnionSpec),
     Named(String),
@@ -145,8 +151,49 @@ fn probe_dates(rng: &mut Rng, cals: &[&CalSpec]) -> Vec<i64> {
 
 pub fn generate(rng: &mut Rng, tier: Tier) -> Plan {
     let max_hols = if tier == Tier::Quick { 60 } else { 400 };
-    let kind = rng.weighted(&[22, 8, 8, 6, 22, 16, 18]);
+    let kind = rng.weighted(&[22, 8, 8, 6, 22, 16, 18, 5]);
     match kind {
+        7 => {
+            // colliding variable lists, both restarted in one process
+            let k = 1 + rng.below(2) as u8;
+            let simple = ["a", "b", "c", "d", "p", "q"];
+            let nv = rng.usize_in(0, 4);
+            let mut base: Vec<String> = simple.iter().take(nv).map(|s| s.to_string()).collect();
+            rng.shuffle(&mut base);
+            let sep = *rng.pick(&[",", "|", " ", ";", ":", "", "\u{1f}", ", ", "\",\""]);
+            let sibling: Vec<String> = if base.len() >= 2 {
+                let i = rng.usize_in(0, base.len() - 2);
+                let mut v = base.clone();
+                let merged = format!("{}{}{}", v[i], sep, v[i + 1]);
+                v[i] = merged;
+                v.remove(i + 1);
+                v
+            } else if base.is_empty() {
+                vec![String::new()]
+            } else {
+                vec![format!("{}{}", base[0], sep), String::new()]
+            };
+            let mut f = |r: &mut Rng| awkward(r, 1e-3, 1e3, true);
+            let (na, nb) = (base.len(), sibling.len());
+            let a = gen_num_with(rng, k, na, base, &mut f);
+            let b = gen_num_with(rng, k, nb, sibling, &mut f);
+            let (a, b) = if rng.chance(0.5) { (a, b) } else { (b, a) };
+            let mut ops: Vec<Op> = Vec::new();
+            for _ in 0..rng.usize_in(2, 5) {
+                ops.push(Op::Restart {
+                    medium: gen_medium(rng),
+                    which: rng.below(2) as u8,
+                });
+                if rng.chance(0.4) {
+                    ops.push(Op::Combine(rng.below(3) as u8));
+                }
+            }
+            Plan {
+                obj: ObjSpec::NumberPair { a, b },
+                ops,
+                probes: vec![],
+            }
+        }
         0 => {
             // numbers
             let k = 1 + rng.below(2) as u8;
@@ -413,6 +460,10 @@ pub fn build_obj(spec: &ObjSpec) -> Result<Obj, Fail> {
             let (x, y) = build_number_pair(x, partner_value.get(), partner_vars)?;
             Obj::Number { x, y }
         }
+        ObjSpec::NumberPair { a, b } => Obj::Number {
+            x: a.to_number().map_err(herr)?,
+            y: b.to_number().map_err(herr)?,
+        },
         ObjSpec::Cal(c) => Obj::Cal(c.build()),
         ObjSpec::Union(u) => Obj::Union(u.build()),
         ObjSpec::Named(n) => Obj::Named(named(n).map_err(herr)?),
@@ -1436,6 +1487,25 @@ pub fn shrink(plan: &Plan) -> Vec<Plan> {
                 out.push(p);
             }
         }
+        ObjSpec::NumberPair { a, b } => {
+            for (first, n) in [(true, a), (false, b)] {
+                for c in c10::simpler_values(n.value()) {
+                    let mut p = plan.clone();
+                    p.obj = if first {
+                        ObjSpec::NumberPair {
+                            a: n.with_value(c),
+                            b: b.clone(),
+                        }
+                    } else {
+                        ObjSpec::NumberPair {
+                            a: a.clone(),
+                            b: n.with_value(c),
+                        }
+                    };
+                    out.push(p);
+                }
+            }
+        }
         ObjSpec::Cal(c) => {
             for c2 in shrink_cal(c) {
                 let mut p = plan.clone();
@@ -1624,6 +1694,7 @@ impl Scenario for C16 {
     fn label(plan: &Plan) -> String {
         match &plan.obj {
             ObjSpec::Number { .. } => "life:number",
+            ObjSpec::NumberPair { .. } => "life:number-pair",
             ObjSpec::Cal(_) => "life:Cal",
             ObjSpec::Union(_) => "life:UnionCal",
             ObjSpec::Named(_) => "life:NamedCal",
